@@ -274,7 +274,7 @@ SXOP(homogeneous_lde)
 // ------------------------------------------------------------------ C23 GF(p)
 typedef GaloisFieldDict GFD;
 static Val GFV(const GFD &d) { return Val::O("gf", std::make_shared<GFD>(d)); }
-static GFD &GF(Ctx &c, const Sx &e, size_t i) { return *c.A(e, i).as<GFD>("gf"); }
+static GFD GF(Ctx &c, const Sx &e, size_t i) { return *c.A(e, i).as<GFD>("gf"); } // by value: the argument may be a temporary
 static std::string gf_json(const GFD &d)
 {
     std::string o = "{\"k\":\"gf\",\"p\":" + zj(d.modulo_) + ",\"c\":[";
@@ -393,4 +393,11 @@ SXOP(gfpoly_from_uint)
     RCP<const Basic> p = c.B(e, 1);
     if (not is_a<UIntPoly>(*p)) throw HarnessError{"not a UIntPoly"};
     return Val::B(GaloisField::from_uintpoly(static_cast<const UIntPoly &>(*p), c.Z(e, 2)));
+}
+SXOP(gf_monic_poly)
+{
+    integer_class lc;
+    GFD m;
+    GF(c, e, 1).gf_monic(lc, outArg(m));
+    return GFV(m);
 }
